@@ -293,3 +293,6 @@ def _explainer_offset_replay(env, cfg):
 
 
 META['explanation'] += ' Explainer level: two explained observations of IncrementalPFI / IncrementalSage with a symbolic common loss offset B: error bound independent of B. Objects with state the step harness does not inject are refused (exit 2).'
+
+META['outside'].append('loss functions returning NumPy integers narrower than 64 bit or NumPy booleans (documented return type: float; the pinned IncrementalSage subtracts such values in their own dtype)')
+META['explanation'] += ' A refuted rounding-model obligation is replayed by real binary64 runs of the shipped trackers against exact rational arithmetic (offsets up to 1e8, n up to 400): mean within 4 n u max|v|, variance within 8 n u kappa relative, smoothing within 4 u max|v| / alpha.'
